@@ -4,11 +4,44 @@
 // changed letter case.  Oracles: upstream packets reach the tun exactly once and in order, the downstream
 // stream never advances without a fresh acknowledgement from an original query and never rewinds, answers
 // to re-deliveries never carry new downstream data, identical repeats of cached queries get the same payload.
+// Shape (a), one case in five: the REAL client talks to the real server through a relay that re-delivers ping / data
+// queries from the same windows (tunnel_common.h, mode REDELIVER); every packet accepted on either tun device must come
+// out of the other exactly once, in order, byte-identical, and an identical repeat of one of the four most recently
+// answered queries must be answered with the payload of the original answer.
 #include "session_common.h"
+#include "tunnel_common.h"
 using namespace hz;
+
+static CaseResult real_client_case(Tape &t)
+{
+	CaseResult r;
+	tun::Run R;
+	tun::run_tunnel(t, tun::REDELIVER, R);
+	r.render = "real client through a re-delivering relay: " + R.render;
+	if (sim::W.livelock) r.fail("C16:livelock", "simulation did not make progress");
+	if (!R.up) { r.cls("real-client:handshake-failed"); return r; }   // C11's business, not judged here
+	rly::Relay &L = *R.relay;
+	r.render += scn::fmt("\n  relay: re-deliveries=%d (cache %d qmem %d pending %d; case-changed %d, second address %d, same id %d) answers swallowed=%d same-payload checks passed=%d",
+			     L.n_red, L.n_red_cache, L.n_red_qmem, L.n_red_pending, L.n_red_case, L.n_red_other, L.n_red_sameid, L.n_red_answers, L.n_cache_same);
+	if (R.v.failed("C01")) r.fail("C16:real-" + R.v.first["C01"].sig.substr(4), R.v.first["C01"].why + "\n" + r.render);
+	else if (R.v.failed("C02")) r.fail("C16:real-" + R.v.first["C02"].sig.substr(4), R.v.first["C02"].why + "\n" + r.render);
+	else if (!L.red_violation.empty()) r.fail("C16:real-cache-payload", L.red_violation + "\n" + r.render);
+	r.nontrivial = L.n_red >= 3 && R.delivered >= 2;
+	r.cls("real-client");
+	if (L.n_red_cache) r.cls("real-client:repeat-in-cache-window");
+	if (L.n_red_qmem) r.cls("real-client:repeat-in-qmem-window");
+	if (L.n_red_pending) r.cls("real-client:repeat-of-pending");
+	if (L.n_red_case) r.cls("real-client:case-changed");
+	if (L.n_cache_same) r.cls("real-client:cache-hit-same-payload");
+	if (R.multi_frag_delivered) r.cls("real-client:multi-fragment-delivered");
+	return r;
+}
 
 static CaseResult run_case(Tape &t)
 {
+	bool real = t.chance(1, 5);
+	if (const char *e = getenv("VERIF_C16_SHAPE")) real = *e == 'a';   // development aid: force one shape
+	if (real) return real_client_case(t);
 	CaseResult r;
 	ses::Profile P;
 	P.w_ping = 5; P.w_up = 6; P.w_offer = 4; P.w_adv = 2; P.w_nreq = 0; P.w_redeliver = 7; P.w_freeze = 1;
